@@ -1,6 +1,7 @@
 ENGINES = [dict(name="Savepoint", path="spec/Savepoint.tla", serves_properties=["C14"],
                 kind_free_text="TLA+ spec of savepoint creation and restore: store coordination (CreateCheckpoint / CreateSavepoint folding into the pending checkpoint, "
-                               "acks, asynchronous publication, retention), operators' DKV checkpoint documents with several entries (WAL + level-list tables each, memtable / L0 / deeper), "
+                               "acks, asynchronous publication in ANY completion order (a publication overtaken by the next checkpoint's is superseded on arrival; a superseded savepoint still gets its artifact), "
+                               "retention), savepoint chains (the job started from a savepoint goes on: ids continue, more checkpoints, a second savepoint, wipe, restore), operators' DKV checkpoint documents with several entries (WAL + level-list tables each, memtable / L0 / deeper), "
                                "the per-operator artifact copy from the document as it is when the copy runs, Wipe, start from the savepoint URI; TLC exhaustive + behaviours and "
                                "Dev_ListLatest counterexamples replayed end-to-end on the real in-process cluster on a real directory (harness/cmd/savepoint, harness/cluster)")]
 CHECKS = {
@@ -14,7 +15,12 @@ CHECKS = {
                      "cluster (gates hold acks, the snapshot write, retention calls and the artifact's document reads) under three data layouts (WAL only / L0 / deeper levels, tiny memtables via "
                      "verif Tune hooks); verdicts: CreateSavepoint's id and that nothing is started on a fold, the savepoint directory's contents against the document entry of ITS id, and - after "
                      "rm -rf of the working storage - source positions and the complete state of every key as given to the reference handler of a job started from the savepoint URI "
-                     "(plus checkpoints of the restored job when the worker count is unchanged); the running job's handler inputs and published checkpoints are compared with the exactly-once run.",
-                note="Bounded: <=2 operators, <=4 checkpoints, one savepoint per behaviour; all operators checkpoint in one step (alignment is C02); publications in id order (C13); no late retention "
+                     "(plus checkpoints of the restored job when the worker count is unchanged); the running job's handler inputs and published checkpoints are compared with the exactly-once run. "
+                     "Overlap: PubWrite finishes in any order and a batch of behaviours (SpHold) holds the savepoint's snapshot write at the store gate while the next checkpoint is started, acknowledged and "
+                     "published; TLC proves SpFailedOnlyIfDropped / SpProducedUnlessOvertaken and the replayer demands the artifact of every handed-out savepoint whose checkpoint was published unless the "
+                     "model says retention / a newer publication had already taken entry n / job snapshot n away. Chains (Gens=2): the cluster started from the first savepoint is gated like the first "
+                     "job, takes further checkpoints and a second savepoint (ids of the real store mapped onto the model's), is wiped, and the job started from the SECOND savepoint must resume at that "
+                     "savepoint's cut with exactly its state.",
+                note="Bounded: <=2 operators, <=4 checkpoints (6 over a chain), one savepoint per job generation, chains of 2 savepoints with an unchanged worker count; all operators checkpoint in one step (alignment is C02); no late retention "
                      "(#28); timers not exercised by the kit's handler (same DKV files); checkpoints of a rescaled restored job are C06; needs the rescale family's multi-handle repairs for N < W."),
 }
